@@ -473,6 +473,34 @@ func checkPlan(d *decl, inj *Injector) (clause, detail string) {
 	return "", ""
 }
 
+// planFingerprint: threads, their statements in order, and the wait flag of every input.
+func planFingerprint(inj *Injector) string {
+	if inj == nil {
+		return "<nil>"
+	}
+	_, threads, _ := planOf(inj)
+	var b strings.Builder
+	for _, a := range inj.Args {
+		fmt.Fprintf(&b, "arg:T%d ", typeID(a.Type))
+	}
+	for t, list := range threads {
+		fmt.Fprintf(&b, "| t%d:", t)
+		for _, s := range list {
+			if s.call != nil {
+				b.WriteString(" " + s.call.Provider.ASTExpr.(*ast.Ident).Name + "(")
+			} else {
+				b.WriteString(" field" + s.field.Field.Name + "(")
+			}
+			for _, a := range s.args() {
+				fmt.Fprintf(&b, "%v,", a.IsWait && a.Param.withChannel)
+			}
+			b.WriteString(")")
+		}
+	}
+	fmt.Fprintf(&b, " err=%v", inj.IsReturnError)
+	return b.String()
+}
+
 // nontrivialPlan: at least two threads or a cross-thread wait.
 func nontrivialPlan(inj *Injector) bool {
 	_, threads, _ := planOf(inj)
@@ -592,6 +620,17 @@ func TestVerifBoundedDecls(t *testing.T) {
 		}
 		if c, det := checkPlan(d, inj); c != "" {
 			return fail(c, det, d)
+		}
+		// C11: the plan is a function of the declaration (Go map iteration order varies between the builds)
+		if evals%7 == 0 {
+			want := planFingerprint(inj)
+			for rep := 0; rep < 2; rep++ {
+				md2, bd2 := d.build()
+				inj2, err2 := CreateInjector(md2, bd2, NewVarPool())
+				if err2 != nil || planFingerprint(inj2) != want {
+					return fail("C11.plan_is_a_function_of_the_declaration", "two builds of the same declaration differ: "+want+" vs "+planFingerprint(inj2), d)
+				}
+			}
 		}
 		return true
 	}
